@@ -40,6 +40,36 @@ class ModuleStub(Ext):
         return self
 
 
+class _Chain(Ext):
+    """itertools.chain: chain(*iterables) and chain.from_iterable(iterable of iterables), evaluated eagerly"""
+
+    def sym_call(self, eng, args, kwargs):
+        return VList([x for s_ in args for x in eng.iterate(s_)])
+
+    def sym_getattr(self, eng, name):
+        if name == "from_iterable":
+            return stub(lambda eng, its: VList([x for s_ in eng.iterate(its) for x in eng.iterate(s_)]))
+        raise Unsupported("itertools.chain.%s" % name)
+
+
+def itertools_module(extra=None):
+    """the part of itertools pymoca may reasonably use, with Python's semantics on finite sequences"""
+    import itertools as _it
+
+    def product(eng, *seqs, **kw):
+        lists = [eng.iterate(s_) for s_ in seqs] * int(kw.get("repeat", 1))
+        return VList([tuple(t) for t in _it.product(*lists)])
+
+    def zip_longest(eng, *seqs, **kw):
+        lists = [eng.iterate(s_) for s_ in seqs]
+        return VList([tuple(t) for t in _it.zip_longest(*lists, fillvalue=kw.get("fillvalue"))])
+    attrs = {"chain": _Chain(), "product": stub(product), "zip_longest": stub(zip_longest),
+             "repeat": stub(lambda eng, x, n: VList([x] * n)),
+             "accumulate": stub(lambda eng, xs: VList(list(_it.accumulate(eng.iterate(xs)))))}
+    attrs.update(extra or {})
+    return ModuleStub("itertools", attrs)
+
+
 class PathStr(Ext):
     """a file-system path (identity = label)"""
     type_names = ("str",)
